@@ -375,6 +375,9 @@ def cases(tier):
     for fam in FAMILIES:
         for seq in _history_cases(tier):
             out.append({"sub": "calib-history", "family": fam, "ops": seq})
+    # re-calibrations: the start model is (almost) calibrated already
+    for fam in FAMILIES:
+        out.extend(_recal_cases(fam, thorough))
     return out
 
 
@@ -1686,13 +1689,14 @@ def _default_entry(sh, U, fam):
     return pname, interval
 
 
-def _judge_default_result(sh, env, fam, values, model_type, model_market, cm, exc, T, vol, label):
+def _judge_default_result(sh, env, fam, values, model_type, model_market, cm, exc, T, vol, label, fn_label=None):
     """Oracle of run_default_calibration for one outcome (returned model cm, or exception): `values` = public parameter
-    values of the input, `model_type` its class, `model_market` its (spot, r, d).  Returns the calibrated value."""
+    values of the input, `model_type` its class, `model_market` its (spot, r, d).  Returns the calibrated value.
+    `fn_label`: the component of the violation keys (default: the function's name)."""
     from rpylib.model import utils as U
     from rpylib.numerical.cosmethod import COSPricer
 
-    fn = "run_default_calibration"
+    fn = fn_label or "run_default_calibration"
     spot, r, d = env["spot"], env["r"], env["d"]
     pname, interval = _default_entry(sh, U, fam)
     product = make_product("call", spot, T)
@@ -2168,3 +2172,239 @@ def _sub_calib_neighbours(sh, case):
         _check_behaviour(sh, "neighbours", fam, m, p["values"], p["env"]["r"], p["env"]["d"], p["env"]["spot"],
                          f"model of problem {which} after neighbours {vname}", role="re-used-model")
     sh.outcome((fam, fn, case["param"], vname, case["order"], hold))
+
+
+# ----------------------------------------------------------------------------------------------------------------------
+# re-calibrations: the START model is (almost) calibrated already
+# ----------------------------------------------------------------------------------------------------------------------
+
+# relative moves of the quote (volatility requested / market price) between the first pass and the re-calibration; 0 = the
+# same quote again
+RECAL_MOVES = [0.0, 1e-9, 1e-7, 4e-6, -7e-6, 1e-4, 1e-2]
+RECAL_ENV = {"r": 0.02, "d": 0.0, "spot": 100.0}
+RECAL_FN = {"default": "run_default_calibration", "atm": "calibrate_model_parameter_to_atm_call",
+            "product": "calibrate_model_parameter"}
+RECAL_DISPLACED = 0.37  # the reference start model holds a + 0.37 (b - a) where the re-calibrated one holds the solution
+
+
+def _move_class(delta):
+    if delta == 0.0:
+        return "same-quote"
+    return "quote-moved-by-less-than-1e-5" if abs(delta) < 1e-5 else "quote-moved-by-more-than-1e-5"
+
+
+def _recal_cases(fam, thorough):
+    out = []
+    n_par = len(CALIB[fam])
+
+    def add(**kw):
+        out.append(dict({"sub": "calib-recal", "family": fam, "start": 0, "rebuild": "ctor"}, **kw))
+
+    if thorough:
+        for s in range(2):
+            for rb in ("ctor", "reinit", "deepcopy"):
+                for T in (0.25, 0.5, 1.0):
+                    for vol in (0.1, 0.2, 0.35):
+                        if rb == "ctor":
+                            add(fn="default", param=0, T=T, vol=vol, start=s)
+                        for pi in range(n_par):
+                            add(fn="atm", param=pi, T=T, vol=vol, start=s, rebuild=rb)
+                for pi in range(n_par):
+                    for kind, k, T, frac in (("put", 1.1, 0.25, 0.3), ("call", 1.0, 1.0, 0.7), ("call", 0.9, 0.25, 0.7),
+                                             ("put", 0.9, 1.0, 0.3)):
+                        add(fn="product", param=pi, kind=kind, k=k, T=T, frac=frac, start=s, rebuild=rb)
+        return out
+    for T, vol in ((1.0, 0.2), (0.25, 0.2), (1.0, 0.1), (0.5, 0.1), (0.25, 0.35)):
+        add(fn="default", param=0, T=T, vol=vol)
+    add(fn="default", param=0, T=1.0, vol=0.2, start=1)
+    for pi in range(n_par):
+        add(fn="atm", param=pi, T=1.0, vol=0.2, rebuild="reinit" if pi == 0 else "ctor")
+    add(fn="atm", param=0, T=0.25, vol=0.35, rebuild="deepcopy")
+    add(fn="atm", param=n_par - 1, T=0.5, vol=0.1, start=1, rebuild="reinit")
+    add(fn="product", param=0, kind="put", k=1.1, T=0.25, frac=0.3, rebuild="reinit")
+    add(fn="product", param=0, kind="call", k=1.0, T=1.0, frac=0.7)
+    add(fn="product", param=1, kind="put", k=1.1, T=0.25, frac=0.3)
+    return out
+
+
+def _sub_calib_recal(sh, case):
+    """Calibration histories in which the start model already prices the target (almost): first pass from the start set,
+    then the RETURNED model (default calibration: the returned object; the two value-returning functions: a model holding
+    the returned value, built by the route `rebuild`) is calibrated again
+       star    to the quote moved by each relative amount of RECAL_MOVES (0 = the same quote again), always from the model of
+               the first pass;
+       chain   to the same quotes in that order, each time from the model returned by the step before;
+       rounded from a model holding the first-pass value rounded to 6 significant digits, to the quote of the first pass;
+       other   (value-returning functions) ANOTHER parameter of the menu of the calibrated model is calibrated to the quote
+               moved by 0 / 4e-6 / 1e-4;
+       input   the INPUT object of the first pass is calibrated again to the quote moved by 0 / 4e-6.
+    Oracle: every outcome is judged like a first-pass calibration (value inside the interval, the directly constructed model
+    reprices the NEW target within the root-finder tolerance, a raise only without a bracketed root, input untouched; default
+    calibration: the whole oracle of the returned model); and the answer does not depend on the value the calibrated
+    parameter had in the start model: it equals, within 4 (xtol + rtol |x|) + 1e-11 max(1, |price|) / slope, the answer for
+    the same target from a model that holds a + 0.37 (b - a) instead (star / chain / rounded / input: from the start set
+    itself)."""
+    from rpylib.model import utils as U
+
+    fam, fnk, T = case["family"], case["fn"], case["T"]
+    fn = RECAL_FN[fnk]
+    env = RECAL_ENV
+    r, d, spot = env["r"], env["d"], env["spot"]
+    start = dict(STARTS[fam][case["start"]])
+    if fnk == "default":
+        pname, interval = _default_entry(sh, U, fam)
+    else:
+        pname, interval = CALIB[fam][case["param"]]
+    interval = tuple(interval)
+    if fnk == "product":
+        product = make_product(case["kind"], case["k"] * spot, T)
+        xstar = interval[0] + case["frac"] * (interval[1] - interval[0])
+        try:
+            quote0 = fresh_price(fam, dict(start, **{pname: xstar}), r, d, spot, product)
+        except Exception:
+            quote0 = math.nan
+        if not math.isfinite(quote0):
+            sh.count("oracle_inconclusive")
+            return
+    else:
+        product = make_product("call", spot, T)
+        quote0 = case["vol"]
+
+    def market_of(quote):
+        return quote if fnk == "product" else bs_call(spot, spot, r, d, quote, T)
+
+    def solve(model, quote, what, pn=pname, iv=interval, values=None, tag=None):
+        """one calibration of `model` (holding `values`) to `quote`, judged; returns (x, returned model or None)"""
+        values = values if values is not None else param_values(fam, model.levy_model.parameters)
+        before = snap(model)
+        if fnk == "default":
+            call = lambda: U.run_default_calibration(model=model, maturity=T, bs_sigma=quote)  # noqa: E731
+        elif fnk == "atm":
+            call = lambda: U.calibrate_model_parameter_to_atm_call(model=model, parameter=pn, parameter_interval=iv,  # noqa: E731
+                                                                   maturity=T, bs_sigma=quote)
+        else:
+            call = lambda: U.calibrate_model_parameter(model=model, parameter=pn, parameter_interval=iv, product=product,  # noqa: E731
+                                                       market_price=quote)
+        key_fn = fn if tag is None else f"{fn}:recalibration:{tag}"
+        attempts = _call_with_seam_fallback(sh, fn, call, [model])
+        out = (None, None)
+        for att, res, exc, after in attempts:
+            lab = f"{att}; {what}"
+            _check_untouched(sh, key_fn, fam, before, after[0], lab)
+            if fnk == "default":
+                if exc is None and (res is model or getattr(getattr(res, "levy_model", None), "parameters", None)
+                                    is model.levy_model.parameters):
+                    sh.violation(f"C20:calib:{key_fn}:result-aliases-the-input:{fam}",
+                                 f"{fn} returned an object sharing the input's {'model' if res is model else 'parameters'} [{lab}]", None)
+                got = _judge_default_result(sh, env, fam, values, type(model), (model.spot, model.r, model.d), res, exc, T, quote,
+                                            lab, fn_label=key_fn)
+                out = (got[0], res) if got else (None, None)
+            else:
+                x = _judge_parameter(sh, key_fn, env, fam, values, pn, iv, product, market_of(quote), res, exc, lab)
+                out = (x, None)
+        return out
+
+    def rebuilt(values):
+        return make_exp_model_via(case["rebuild"], fam, values, r, d, spot)[0]
+
+    def same_answer(x, x_ref, quote, values, what, tag, pn=pname, iv=interval):
+        """the answer does not depend on the value the calibrated parameter had in the start model"""
+        if x is None or x_ref is None:
+            sh.count("recal_comparison_skipped_no_value")
+            return
+        market = market_of(quote)
+        lo, hi = min(iv), max(iv)
+
+        def f(v):
+            return fresh_price(fam, dict(values, **{pn: v}), r, d, spot, product) - market
+        try:
+            h = max(1e-7, 1e-7 * abs(x_ref))
+            up, dn = min(hi, x_ref + h), max(lo, x_ref - h)
+            slope = abs(f(up) - f(dn)) / (up - dn)
+        except Exception:
+            slope = math.nan
+        sh.count("evaluations")
+        if not (math.isfinite(slope) and slope > 0.0):
+            sh.count("oracle_inconclusive")
+            return
+        tol = 4.0 * (XTOL + RTOL_BRENT * abs(x_ref)) + 1e-11 * max(1.0, abs(market)) / slope
+        sh.nontriv()
+        sh.cls("recal:same-answer:" + ("bit-identical" if x == x_ref else "within-tolerance" if abs(x - x_ref) <= tol else "differs"))
+        if not (abs(x - x_ref) <= tol):
+            sh.violation(
+                f"C20:recal:{fn}:answer-depends-on-the-start-value-of-the-calibrated-parameter:{fam}:{pn}:{tag}",
+                f"{fn}({fam}, {pn} in {iv}) [{what}]: {x!r} from the (almost) calibrated start model, {x_ref!r} for the same "
+                f"target from a start model that holds another value of {pn}: difference {abs(x - x_ref):.3e} > {tol:.3e}",
+                {"recalibrated": x, "reference": x_ref, "tolerance": tol, "slope": slope, "quote": quote})
+
+    # ---- first pass, from the start set
+    m0 = make_exp_model(fam, start, r, d, spot)
+    x0, cm0 = solve(m0, quote0, "first pass from the start set")
+    if x0 is None:
+        sh.count("recal_first_pass_without_value")
+        sh.cls(f"recal:{fnk}:first-pass-raised")
+        return
+    model1 = cm0 if fnk == "default" else rebuilt(dict(start, **{pname: x0}))
+    quotes = [quote0 * (1.0 + dl) for dl in RECAL_MOVES]
+    # references: first-pass calibrations to the moved quotes, each from a freshly constructed start model
+    refs = []
+    for dl, q in zip(RECAL_MOVES, quotes):
+        if dl == 0.0:
+            refs.append(x0)
+        else:
+            refs.append(solve(make_exp_model(fam, start, r, d, spot), q, f"first pass to the quote moved by {dl:g}")[0])
+    # ---- star
+    for dl, q, x_ref in zip(RECAL_MOVES, quotes, refs):
+        tag = _move_class(dl)
+        what = f"the model of the first pass calibrated again, quote moved by {dl:g}"
+        x, _ = solve(model1, q, what, tag=tag)
+        same_answer(x, x_ref, q, start, what, tag)
+    # ---- chain
+    cur = model1
+    for n, (dl, q, x_ref) in enumerate(zip(RECAL_MOVES, quotes, refs)):
+        tag = _move_class(dl if n == 0 else RECAL_MOVES[n] - RECAL_MOVES[n - 1])
+        what = f"chain step {n + 1}: the model returned by the step before calibrated to the quote moved by {dl:g}"
+        if n > 0:  # step 1 of the chain is the first element of the star
+            x, cm = solve(cur, q, what, tag=tag)
+            same_answer(x, x_ref, q, start, what, tag)
+            if x is None:
+                sh.count("recal_chain_cut")
+                break
+            cur = cm if fnk == "default" else rebuilt(dict(start, **{pname: x}))
+    # ---- rounded start value
+    xr = float(f"{x0:.6g}")
+    if min(interval) <= xr <= max(interval) and xr != x0:
+        what = "start value = the first-pass value rounded to 6 significant digits, same quote"
+        x, _ = solve(rebuilt(dict(start, **{pname: xr})), quote0, what, tag="rounded-start-value")
+        same_answer(x, x0, quote0, start, what, "rounded-start-value")
+    # ---- another parameter of the calibrated model
+    if fnk != "default":
+        n_par = len(CALIB[fam])
+        pn2, iv2 = CALIB[fam][(case["param"] + 1) % n_par]
+        vals1 = dict(start, **{pname: x0})
+        if min(iv2) <= vals1[pn2] <= max(iv2):
+            for dl in (0.0, 4e-6, 1e-4):
+                q = quote0 * (1.0 + dl)
+                tag = "other-parameter:" + _move_class(dl)
+                what = f"{pn2} of the model calibrated in {pname} is calibrated, quote moved by {dl:g}"
+                x, _ = solve(rebuilt(vals1), q, what, pn=pn2, iv=tuple(iv2), tag=tag)
+                displaced = dict(vals1, **{pn2: iv2[0] + RECAL_DISPLACED * (iv2[1] - iv2[0])})
+                try:
+                    m_ref = make_exp_model(fam, displaced, r, d, spot)
+                except Exception:
+                    sh.count("oracle_inconclusive")
+                    continue
+                x_ref, _ = solve(m_ref, q, what + " (reference: displaced start value)", pn=pn2, iv=tuple(iv2), values=displaced)
+                same_answer(x, x_ref, q, vals1, what, tag, pn=pn2, iv=tuple(iv2))
+    # ---- the input object of the first pass, once more
+    for dl in (0.0, 4e-6):
+        i = RECAL_MOVES.index(dl)
+        what = f"the input object of the first pass calibrated again, quote moved by {dl:g}"
+        x, _ = solve(m0, quotes[i], what, values=start, tag="input-object-again:" + _move_class(dl))
+        same_answer(x, refs[i], quotes[i], start, what, "input-object-again:" + _move_class(dl))
+    _check_behaviour(sh, fn, fam, m0, start, r, d, spot, "input model after the re-calibrations")
+    _check_behaviour(sh, fn, fam, model1, param_values(fam, model1.levy_model.parameters) if fnk == "default"
+                     else dict(start, **{pname: x0}), r, d, spot, "first-pass model after the re-calibrations", role="re-used-model")
+    sh.cls(f"recal:{fnk}:{fam}:{pname}")
+    sh.cls(f"recal:rebuild:{case['rebuild']}")
+    sh.outcome((fam, fnk, pname, "recal", round(x0, 6)))
